@@ -149,9 +149,6 @@ theorem validateFuel_fst_cnt (html : Bool) : ∀ (fuel : Nat) (s : Bytes) (c1 c2
 
 /-! ### the UTF-8 filter -/
 
-/-- admissible replacement: 0 (= delete) or a byte that is by itself HTML-safe well-formed text -/
-def ReplOk (repl : UInt8) : Prop := repl = 0 ∨ ∃ n, WellFormed true [repl] n
-
 theorem consumed_append (enc rest : Bytes) : consumed (enc ++ rest) rest = enc := by
   simp [consumed]
 
@@ -361,5 +358,358 @@ theorem nameTableOk_ok : nameTableOk = true := by decide +kernel
 theorem range_all_byte {P : Nat → Bool} (h : (List.range 256).all P = true) (c : UInt8) : P c.toNat = true := by
   rw [List.all_eq_true] at h
   exact h _ (List.mem_range.2 c.toNat_lt)
+
+end Cppcms.C14
+
+namespace Cppcms.C14
+open Cppcms Spec
+
+/-! ### sanity of the specification itself -/
+
+set_option maxRecDepth 4000 in
+theorem rfc_scalar_shortest {v : Nat} {enc : Bytes} (h : Rfc3629 v enc) :
+    Scalar v ∧ enc.length = shortestLen v := by
+  obtain ⟨hu, hv⟩ := h
+  have hs := shortestLen_cases v
+  unfold Scalar
+  match enc with
+  | [] => cases hu
+  | [a] =>
+    have hu' : utf8Char [a.toNat] = true := hu
+    have hv' : v = scalarOf [a.toNat] := hv
+    rw [utf8Char1] at hu'; rw [scalarOf1] at hv'
+    simp at hu'
+    refine ⟨⟨by omega, by omega⟩, ?_⟩
+    simp; omega
+  | [a, b] =>
+    have hu' : utf8Char [a.toNat, b.toNat] = true := hu
+    have hv' : v = scalarOf [a.toNat, b.toNat] := hv
+    rw [utf8Char2_iff] at hu'; rw [scalarOf2] at hv'
+    refine ⟨⟨by omega, by omega⟩, ?_⟩
+    simp; omega
+  | [a, b, c] =>
+    have hu' : utf8Char [a.toNat, b.toNat, c.toNat] = true := hu
+    have hv' : v = scalarOf [a.toNat, b.toNat, c.toNat] := hv
+    rw [utf8Char3_iff] at hu'; rw [scalarOf3] at hv'
+    refine ⟨⟨by omega, by omega⟩, ?_⟩
+    simp; omega
+  | [a, b, c, d] =>
+    have hu' : utf8Char [a.toNat, b.toNat, c.toNat, d.toNat] = true := hu
+    have hv' : v = scalarOf [a.toNat, b.toNat, c.toNat, d.toNat] := hv
+    rw [utf8Char4_iff] at hu'; rw [scalarOf4] at hv'
+    refine ⟨⟨by omega, by omega⟩, ?_⟩
+    simp; omega
+  | _ :: _ :: _ :: _ :: _ :: _ => cases hu
+
+theorem toNat_ofNat_lt {n : Nat} (h : n < 256) : (UInt8.ofNat n).toNat = n := by
+  rw [UInt8.toNat_ofNat']; omega
+
+theorem rfc_encode {v : Nat} (h : Scalar v) : Rfc3629 v (encode v) := by
+  obtain ⟨h1, h2⟩ := h
+  unfold encode
+  by_cases c1 : v ≤ 0x7F
+  · rw [if_pos c1]
+    refine ⟨?_, ?_⟩
+    · show utf8Char [(UInt8.ofNat v).toNat] = true
+      rw [toNat_ofNat_lt (by omega), utf8Char1]; simpa using c1
+    · show v = scalarOf [(UInt8.ofNat v).toNat]
+      rw [toNat_ofNat_lt (by omega), scalarOf1]
+  · rw [if_neg c1]
+    by_cases c2 : v ≤ 0x7FF
+    · rw [if_pos c2]
+      refine ⟨?_, ?_⟩
+      · show utf8Char [(UInt8.ofNat _).toNat, (UInt8.ofNat _).toNat] = true
+        rw [toNat_ofNat_lt (by omega), toNat_ofNat_lt (by omega), utf8Char2_iff]; omega
+      · show v = scalarOf [(UInt8.ofNat _).toNat, (UInt8.ofNat _).toNat]
+        rw [toNat_ofNat_lt (by omega), toNat_ofNat_lt (by omega), scalarOf2]; omega
+    · rw [if_neg c2]
+      by_cases c3 : v ≤ 0xFFFF
+      · rw [if_pos c3]
+        refine ⟨?_, ?_⟩
+        · show utf8Char [(UInt8.ofNat _).toNat, (UInt8.ofNat _).toNat, (UInt8.ofNat _).toNat] = true
+          rw [toNat_ofNat_lt (by omega), toNat_ofNat_lt (by omega), toNat_ofNat_lt (by omega), utf8Char3_iff]; omega
+        · show v = scalarOf [(UInt8.ofNat _).toNat, (UInt8.ofNat _).toNat, (UInt8.ofNat _).toNat]
+          rw [toNat_ofNat_lt (by omega), toNat_ofNat_lt (by omega), toNat_ofNat_lt (by omega), scalarOf3]; omega
+      · rw [if_neg c3]
+        refine ⟨?_, ?_⟩
+        · show utf8Char [(UInt8.ofNat _).toNat, (UInt8.ofNat _).toNat, (UInt8.ofNat _).toNat, (UInt8.ofNat _).toNat] = true
+          rw [toNat_ofNat_lt (by omega), toNat_ofNat_lt (by omega), toNat_ofNat_lt (by omega),
+            toNat_ofNat_lt (by omega), utf8Char4_iff]; omega
+        · show v = scalarOf [(UInt8.ofNat _).toNat, (UInt8.ofNat _).toNat, (UInt8.ofNat _).toNat, (UInt8.ofNat _).toNat]
+          rw [toNat_ofNat_lt (by omega), toNat_ofNat_lt (by omega), toNat_ofNat_lt (by omega),
+            toNat_ofNat_lt (by omega), scalarOf4]; omega
+
+set_option maxRecDepth 4000 in
+theorem rfc_eq_encode {v : Nat} {e : Bytes} (h : Rfc3629 v e) : e = encode v := by
+  obtain ⟨hu, hv⟩ := h
+  unfold encode
+  match e with
+  | [] => cases hu
+  | [a] =>
+    have u1 : utf8Char [a.toNat] = true := hu
+    have x1 : v = scalarOf [a.toNat] := hv
+    rw [utf8Char1] at u1; rw [scalarOf1] at x1
+    simp at u1
+    rw [if_pos (by omega)]
+    have ea : a = UInt8.ofNat v := UInt8.toNat_inj.1 (by rw [toNat_ofNat_lt (by omega)]; omega)
+    rw [ea]
+  | [a, b] =>
+    have u1 : utf8Char [a.toNat, b.toNat] = true := hu
+    have x1 : v = scalarOf [a.toNat, b.toNat] := hv
+    rw [utf8Char2_iff] at u1; rw [scalarOf2] at x1
+    rw [if_neg (by omega), if_pos (by omega)]
+    have ea : a = UInt8.ofNat (0xC0 + v / 64) := UInt8.toNat_inj.1 (by rw [toNat_ofNat_lt (by omega)]; omega)
+    have eb : b = UInt8.ofNat (0x80 + v % 64) := UInt8.toNat_inj.1 (by rw [toNat_ofNat_lt (by omega)]; omega)
+    rw [← ea, ← eb]
+  | [a, b, c] =>
+    have u1 : utf8Char [a.toNat, b.toNat, c.toNat] = true := hu
+    have x1 : v = scalarOf [a.toNat, b.toNat, c.toNat] := hv
+    rw [utf8Char3_iff] at u1; rw [scalarOf3] at x1
+    rw [if_neg (by omega), if_neg (by omega), if_pos (by omega)]
+    have ea : a = UInt8.ofNat (0xE0 + v / 4096) := UInt8.toNat_inj.1 (by rw [toNat_ofNat_lt (by omega)]; omega)
+    have eb : b = UInt8.ofNat (0x80 + v / 64 % 64) := UInt8.toNat_inj.1 (by rw [toNat_ofNat_lt (by omega)]; omega)
+    have ec : c = UInt8.ofNat (0x80 + v % 64) := UInt8.toNat_inj.1 (by rw [toNat_ofNat_lt (by omega)]; omega)
+    rw [← ea, ← eb, ← ec]
+  | [a, b, c, d] =>
+    have u1 : utf8Char [a.toNat, b.toNat, c.toNat, d.toNat] = true := hu
+    have x1 : v = scalarOf [a.toNat, b.toNat, c.toNat, d.toNat] := hv
+    rw [utf8Char4_iff] at u1; rw [scalarOf4] at x1
+    rw [if_neg (by omega), if_neg (by omega), if_neg (by omega)]
+    have ea : a = UInt8.ofNat (0xF0 + v / 262144) := UInt8.toNat_inj.1 (by rw [toNat_ofNat_lt (by omega)]; omega)
+    have eb : b = UInt8.ofNat (0x80 + v / 4096 % 64) := UInt8.toNat_inj.1 (by rw [toNat_ofNat_lt (by omega)]; omega)
+    have ec : c = UInt8.ofNat (0x80 + v / 64 % 64) := UInt8.toNat_inj.1 (by rw [toNat_ofNat_lt (by omega)]; omega)
+    have ed : d = UInt8.ofNat (0x80 + v % 64) := UInt8.toNat_inj.1 (by rw [toNat_ofNat_lt (by omega)]; omega)
+    rw [← ea, ← eb, ← ec, ← ed]
+  | _ :: _ :: _ :: _ :: _ :: _ => cases hu
+
+
+/-! ### names -/
+theorem cmpDigit_eq (c : Nat) : Gen.cmpDigit c = decide (48 ≤ c ∧ c ≤ 57) := by
+  unfold Gen.cmpDigit; rw [Bool.eq_iff_iff]; simp
+theorem cmpLower_eq (c : Nat) : Gen.cmpLower c = decide (97 ≤ c ∧ c ≤ 122) := by
+  unfold Gen.cmpLower; rw [Bool.eq_iff_iff]; simp
+theorem cmpUpper_eq (c : Nat) : Gen.cmpUpper c = decide (65 ≤ c ∧ c ≤ 90) := by
+  unfold Gen.cmpUpper; rw [Bool.eq_iff_iff]; simp
+theorem cmpToLower_eq (c : Nat) (h : 65 ≤ c ∧ c ≤ 90) : Gen.cmpToLower c % 256 = c + 32 := by
+  unfold Gen.cmpToLower; omega
+
+theorem normalize_eq_normName : ∀ name : List Nat, normalize name = normName name := by
+  intro name
+  induction name with
+  | nil => rfl
+  | cons c r ih =>
+    unfold normalize
+    rw [cmpDigit_eq, cmpLower_eq, cmpUpper_eq, ih]
+    unfold normName
+    by_cases h0 : c = 0
+    · subst h0; simp [List.takeWhile]
+    · have hne : (c != 0) = true := by simp [h0]
+      have h0' : (c == 0) = false := by simp [h0]
+      simp only [h0', List.takeWhile_cons, hne, if_true, Bool.false_eq_true, if_false]
+      by_cases hd : 48 ≤ c ∧ c ≤ 57
+      · have ha : alnum c = true := by unfold alnum; simp; omega
+        have hl : lower c = c := by unfold lower; rw [if_neg (by omega)]
+        simp [hd, List.filter_cons, ha, hl]
+      · by_cases hl : 97 ≤ c ∧ c ≤ 122
+        · have ha : alnum c = true := by unfold alnum; simp; omega
+          have hl' : lower c = c := by unfold lower; rw [if_neg (by omega)]
+          simp [hd, hl, List.filter_cons, ha, hl']
+        · by_cases hu : 65 ≤ c ∧ c ≤ 90
+          · have ha : alnum c = true := by unfold alnum; simp; omega
+            have hl' : lower c = c + 32 := by unfold lower; rw [if_pos hu]
+            simp [hd, hl, hu, List.filter_cons, ha, hl', cmpToLower_eq c hu]
+          · have ha : alnum c = false := by unfold alnum; simp; omega
+            simp [hd, hl, hu, List.filter_cons, ha]
+
+
+theorem seqLen_eq (n : Nat) : seqLen n = (leadClass n).map (· + 1) := by
+  unfold seqLen leadClass
+  repeat' split
+  all_goals first | rfl | omega
+
+theorem isTr_iff_tail (t : UInt8) : isTr t ↔ Spec.tail t.toNat = true := by
+  unfold isTr Spec.tail; simp; omega
+
+theorem decode_incomplete_iff' (bs : Bytes) : (Boost.decode bs).1 = .incomplete ↔ Truncated bs := by
+  unfold Truncated
+  match bs with
+  | [] => simp [Boost.decode_nil]
+  | a :: p =>
+    simp only [reduceCtorEq, false_or, List.cons.injEq]
+    rcases lead_cases a.toNat with h0 | hb | h2 | h3 | h4
+    · rw [Boost.decode_ascii a p h0]
+      simp only [reduceCtorEq, false_iff]
+      rintro ⟨a', ts, n, ⟨rfl, rfl⟩, hs, hl, _⟩
+      rw [seqLen_eq, leadClass_0 h0] at hs
+      simp at hs; omega
+    · rw [Boost.decode_badLead a p hb]
+      simp only [reduceCtorEq, false_iff]
+      rintro ⟨a', ts, n, ⟨rfl, rfl⟩, hs, hl, _⟩
+      rw [seqLen_eq, leadClass_bad hb] at hs
+      simp at hs
+    · rw [Boost.decode_lead2 a p h2]
+      have hs2 : seqLen a.toNat = some 2 := by rw [seqLen_eq, leadClass_1 h2]; rfl
+      match p with
+      | [] =>
+        simp only [true_iff]
+        exact ⟨a, [], 2, ⟨rfl, rfl⟩, hs2, by simp, by simp⟩
+      | b :: p1 =>
+        have : ¬ ∃ a' ts n, (a = a' ∧ b :: p1 = ts) ∧ seqLen a'.toNat = some n ∧ ts.length + 1 < n ∧
+            ∀ t ∈ ts, Spec.tail t.toNat = true := by
+          rintro ⟨a', ts, n, ⟨rfl, rfl⟩, hs, hl, _⟩
+          rw [hs2] at hs; simp at hs hl; omega
+        simp only [this, iff_false]
+        repeat' split
+        all_goals simp
+    · rw [Boost.decode_lead3 a p h3]
+      have hs3 : seqLen a.toNat = some 3 := by rw [seqLen_eq, leadClass_2 h3]; rfl
+      match p with
+      | [] =>
+        simp only [true_iff]
+        exact ⟨a, [], 3, ⟨rfl, rfl⟩, hs3, by simp, by simp⟩
+      | [b] =>
+        simp only
+        by_cases hb : isTr b
+        · simp only [hb, if_true, true_iff]
+          exact ⟨a, [b], 3, ⟨rfl, rfl⟩, hs3, by simp, by simpa using (isTr_iff_tail b).1 hb⟩
+        · simp only [hb, if_false, reduceCtorEq, false_iff]
+          rintro ⟨a', ts, n, ⟨rfl, rfl⟩, hs, hl, ht⟩
+          exact hb ((isTr_iff_tail b).2 (ht b (by simp)))
+      | b :: c :: p2 =>
+        have : ¬ ∃ a' ts n, (a = a' ∧ b :: c :: p2 = ts) ∧ seqLen a'.toNat = some n ∧ ts.length + 1 < n ∧
+            ∀ t ∈ ts, Spec.tail t.toNat = true := by
+          rintro ⟨a', ts, n, ⟨rfl, rfl⟩, hs, hl, _⟩
+          rw [hs3] at hs; simp at hs hl; omega
+        simp only [this, iff_false]
+        repeat' split
+        all_goals simp
+    · rw [Boost.decode_lead4 a p h4]
+      have hs4 : seqLen a.toNat = some 4 := by rw [seqLen_eq, leadClass_3 h4]; rfl
+      match p with
+      | [] =>
+        simp only [true_iff]
+        exact ⟨a, [], 4, ⟨rfl, rfl⟩, hs4, by simp, by simp⟩
+      | [b] =>
+        simp only
+        by_cases hb : isTr b
+        · simp only [hb, if_true, true_iff]
+          exact ⟨a, [b], 4, ⟨rfl, rfl⟩, hs4, by simp, by simpa using (isTr_iff_tail b).1 hb⟩
+        · simp only [hb, if_false, reduceCtorEq, false_iff]
+          rintro ⟨a', ts, n, ⟨rfl, rfl⟩, hs, hl, ht⟩
+          exact hb ((isTr_iff_tail b).2 (ht b (by simp)))
+      | [b, c] =>
+        simp only
+        by_cases hb : isTr b
+        · by_cases hc : isTr c
+          · simp only [hb, hc, if_true, true_iff]
+            refine ⟨a, [b, c], 4, ⟨rfl, rfl⟩, hs4, by simp, ?_⟩
+            intro t ht
+            simp at ht
+            rcases ht with rfl | rfl
+            · exact (isTr_iff_tail _).1 hb
+            · exact (isTr_iff_tail _).1 hc
+          · simp only [hb, hc, if_true, if_false, reduceCtorEq, false_iff]
+            rintro ⟨a', ts, n, ⟨rfl, rfl⟩, hs, hl, ht⟩
+            exact hc ((isTr_iff_tail c).2 (ht c (by simp)))
+        · simp only [hb, if_false, reduceCtorEq, false_iff]
+          rintro ⟨a', ts, n, ⟨rfl, rfl⟩, hs, hl, ht⟩
+          exact hb ((isTr_iff_tail b).2 (ht b (by simp)))
+      | b :: c :: d :: p3 =>
+        have : ¬ ∃ a' ts n, (a = a' ∧ b :: c :: d :: p3 = ts) ∧ seqLen a'.toNat = some n ∧ ts.length + 1 < n ∧
+            ∀ t ∈ ts, Spec.tail t.toNat = true := by
+          rintro ⟨a', ts, n, ⟨rfl, rfl⟩, hs, hl, _⟩
+          rw [hs4] at hs; simp at hs hl; omega
+        simp only [this, iff_false]
+        repeat' split
+        all_goals simp
+
+
+theorem undecodable_of_next {html : Bool} {a : UInt8} {p : Bytes}
+    (h : ∀ v rest, Cms.next html (a :: p) ≠ (.cp v, rest)) : Undecodable html (a :: p) := by
+  refine ⟨by simp, ?_⟩
+  rintro ⟨v, enc, rest, he, hr, hm⟩
+  exact h v rest (by rw [he]; exact Cms.next_cp_complete html enc rest v hr hm)
+
+theorem validateFuel_false_spec (html : Bool) : ∀ (fuel : Nat) (s : Bytes) (cnt m : Nat), s.length ≤ fuel →
+    validateFuel html fuel s cnt = (false, m) →
+    ∃ pre suf n, s = pre ++ suf ∧ m = cnt + n ∧ WellFormed html pre n ∧ Undecodable html suf := by
+  intro fuel
+  induction fuel with
+  | zero =>
+    intro s cnt m hl h
+    have : s = [] := List.eq_nil_of_length_eq_zero (by omega)
+    subst this
+    simp [validateFuel] at h
+  | succ f ih =>
+    intro s cnt m hl h
+    match s with
+    | [] => simp [validateFuel] at h
+    | a :: p =>
+      cases hn : Cms.next html (a :: p) with
+      | mk o p' =>
+        cases o with
+        | cp v =>
+          have hsh := next_cp_shorter hn
+          obtain ⟨enc, he, hr, hm⟩ := (next_cp_iff html _ _ _).1 hn
+          simp only [validateFuel, hn] at h
+          obtain ⟨pre, suf, n, e, hmn, hw, hu⟩ := ih p' (cnt + 1) m (by simp at hsh hl; omega) h
+          exact ⟨enc ++ pre, suf, n + 1, by rw [he, e]; simp, by omega, wf_cons hr hm hw, hu⟩
+        | illegal =>
+          simp only [validateFuel, hn] at h
+          cases h
+          exact ⟨[], a :: p, 0, rfl, rfl, (wf_nil html 0).2 rfl,
+            undecodable_of_next (fun v rest hc => by rw [hn] at hc; cases hc)⟩
+        | incomplete =>
+          simp only [validateFuel, hn] at h
+          cases h
+          exact ⟨[], a :: p, 0, rfl, rfl, (wf_nil html 0).2 rfl,
+            undecodable_of_next (fun v rest hc => by rw [hn] at hc; cases hc)⟩
+
+/-- next always leaves a suffix of its input when it returns a code point -/
+theorem filterFuel_sublist : ∀ (fuel : Nat) (p : Bytes), p.length ≤ fuel →
+    (filterFuel 0 fuel p).Sublist p := by
+  intro fuel
+  induction fuel with
+  | zero =>
+    intro p hl
+    have : p = [] := List.eq_nil_of_length_eq_zero (by omega)
+    subst this
+    simp [filterFuel]
+  | succ f ih =>
+    intro p hl
+    match p with
+    | [] => simp [filterFuel]
+    | a :: p1 =>
+      have hskip : (replOut 0 ++ filterFuel 0 f p1).Sublist (a :: p1) := by
+        have := ih p1 (by simp at hl; omega)
+        simpa [replOut] using List.Sublist.cons a this
+      have hretry : (match Cms.next Gen.filterRetryHtml (a :: p1) with
+              | (.cp _, p'') => replOut 0 ++ filterFuel 0 f p''
+              | _ => replOut 0 ++ filterFuel 0 f p1).Sublist (a :: p1) := by
+        cases hn2 : Cms.next Gen.filterRetryHtml (a :: p1) with
+        | mk o2 p'' =>
+          cases o2 with
+          | cp v2 =>
+            have hsh := next_cp_shorter hn2
+            obtain ⟨enc, he, _, _⟩ := (next_cp_iff _ _ _ _).1 hn2
+            have := ih p'' (by simp at hsh hl; omega)
+            simp only [replOut]
+            rw [he]
+            simpa using this.trans (List.sublist_append_right enc p'')
+          | illegal => exact hskip
+          | incomplete => exact hskip
+      cases hn : Cms.next Gen.filterKeepHtml (a :: p1) with
+      | mk o p' =>
+        cases o with
+        | cp v =>
+          have hsh := next_cp_shorter hn
+          obtain ⟨enc, he, _, _⟩ := (next_cp_iff _ _ _ _).1 hn
+          have := ih p' (by simp at hsh hl; omega)
+          simp only [filterFuel, hn]
+          rw [he, consumed_append]
+          exact List.Sublist.append (List.Sublist.refl enc) this
+        | illegal => simp only [filterFuel, hn]; exact hretry
+        | incomplete => simp only [filterFuel, hn]; exact hretry
+
 
 end Cppcms.C14
